@@ -34,32 +34,6 @@ def has_nonfinite_literal(src):
     return False
 
 
-def classify_f14(case):
-    """narrow: a literal overflowing f64 in the source AND the symptom is the `null` that serde_json writes for it"""
-    if not has_nonfinite_literal(case.get("src", "")):
-        return None
-    sym = json.dumps(case.get("got", ""))
-    if "invalid type: null, expected f64" in sym or case.get("kind") == "nonfinite-model":
-        return "F14-nonfinite-float-json-null"
-    return None
-
-
-def classify_f9(case):
-    """narrow: compile() dies in ErrorMessages::composed's assert (byte offsets read as character offsets, C12/C13 F9) where the
-    staged chain -- whose resolver / back-end errors are never composed with the source -- returns the plain error;
-    input predicate: non-ASCII text in the source"""
-    got = case.get("got") if isinstance(case.get("got"), dict) else {}
-    d, st = got.get("direct"), got.get("staged")
-    if (d and st and d[0] == "panic" and "is out of bounds of the source" in d[1] and st[0] == "err"
-            and got.get("stage") in ("pl_to_rq", "rq_to_sql") and any(ord(c) > 127 for c in case.get("src", ""))):
-        return "F9-composed-assert-only-in-compile"
-    return None
-
-
-def classify_staged(case):
-    return classify_f14(case) or classify_f9(case)
-
-
 def prioritise(violations):
     """order in which violations are printed (the framework prints the first 20 distinct ones): broken obligations, then
     the staged-vs-compile differences (the property's own statement), then the other kinds in turn, one of each"""
@@ -79,12 +53,26 @@ def prioritise(violations):
     return out
 
 
-def err_core(r):
-    """what is compared of a result: SQL text, or the errors without display/location (see DESIGN C15)"""
+def span_chars(e, src):
+    """the span of an error in CHARACTER offsets of the source.  Since d3106b1 (F9) `composed()` converts the byte offsets that
+    tokens carry to character offsets, once; an error that was never composed with its source (location = None: what pl_to_rq and
+    rq_to_sql return to a caller of the staged API) still carries byte offsets."""
+    sp = e.get("span")
+    if not sp or e.get("location") is not None or src is None:
+        return sp
+    b = src.encode("utf-8")
+    try:
+        return dict(sp, start=len(b[:sp["start"]].decode("utf-8")), end=len(b[:sp["end"]].decode("utf-8")))
+    except UnicodeDecodeError:
+        return sp
+
+
+def err_core(r, src=None):
+    """what is compared of a result: SQL text, or the errors without display/location, spans in characters (see DESIGN C15)"""
     if "ok" in r:
         return ("ok", r["ok"])
     if "err" in r:
-        return ("err", [(e["kind"], e["code"], e["reason"], tuple(e["hints"]), json.dumps(e["span"], sort_keys=True)) for e in r["err"]])
+        return ("err", [(e["kind"], e["code"], e["reason"], tuple(e["hints"]), json.dumps(span_chars(e, src), sort_keys=True)) for e in r["err"]])
     if "panic" in r:
         return ("panic", r["panic"].get("msg", "")[:120])
     return ("other", json.dumps(r, sort_keys=True)[:200])
@@ -208,8 +196,8 @@ def replay(path):
     both = harness1("c15_both", rq_)
     js = harness1("c15_json", {"src": src})
     d_, s_ = both.get("direct", {}), both.get("staged", {})
-    same = err_core(d_) == err_core(s_.get("r", s_))
-    print(json.dumps({"request": rq_, "direct": err_core(d_), "staged": err_core(s_.get("r", s_)), "stage": s_.get("stage"),
+    same = err_core(d_, src) == err_core(s_.get("r", s_), src)
+    print(json.dumps({"request": rq_, "direct": err_core(d_, src), "staged": err_core(s_.get("r", s_), src), "stage": s_.get("stage"),
                       "json_round_trip": {k: js.get(k) for k in ("pl_eq", "pl_text_eq", "rq_eq", "rq_text_eq", "pl_de_err", "rq_de_err")}}, indent=1)[:3000])
     print("REPRODUCED" if not same or js.get("pl_eq") is False or js.get("rq_eq") is False or "pl_de_err" in js or "rq_de_err" in js else "NOT REPRODUCED")
     sys.exit(0)
@@ -282,18 +270,18 @@ def run():
             case = {"src": p, "kind": kind}
             if kind + "_ser_err" in a:
                 case["got"] = a[kind + "_ser_err"]
-                ck.disagreement("%s does not serialise" % kind, case, classify_f14); continue
+                ck.disagreement("%s does not serialise" % kind, case); continue
             if kind + "_de_err" in a:
                 case["got"] = a[kind + "_de_err"]
                 ck.stat("jsonrt", kind + ":de-error")
-                ck.disagreement("%s JSON written by prqlc is rejected by prqlc" % kind.upper(), case, classify_f14)
+                ck.disagreement("%s JSON written by prqlc is rejected by prqlc" % kind.upper(), case)
             else:
                 if not a.get(kind + "_eq"):
                     case["got"] = "value differs after JSON round trip"
-                    ck.disagreement("%s value differs after to_json . from_json" % kind.upper(), case, classify_f14)
+                    ck.disagreement("%s value differs after to_json . from_json" % kind.upper(), case)
                 elif not a.get(kind + "_text_eq"):
                     case["got"] = "json text differs after second serialisation"
-                    ck.disagreement("%s JSON text differs after round trip" % kind.upper(), case, classify_f14)
+                    ck.disagreement("%s JSON text differs after round trip" % kind.upper(), case)
                 else:
                     ck.stat("jsonrt", kind + ":ok")
             if kind in a:
@@ -303,8 +291,8 @@ def run():
                     ck.violation("prqlc wrote JSON python cannot read: %s" % ex, case)
 
     # ------------------------------------------------------------------ 1b. the lexer hypothesis of c15_staged_eq_direct_if_lexer_rejects_nonfinite
-    # Hlex_finite: no token carries a non-finite float.  False of today's lexer exactly for the sources of the F14 class
-    # (has_nonfinite_literal); with fixes/F14-lexer-rejects-nonfinite-float.diff the lexer rejects those sources instead.
+    # Hlex_finite: no token carries a non-finite float.  Since d8fda67 the lexer rejects a source with an overflowing literal
+    # (has_nonfinite_literal); a non-finite token, or an accepted source the predicate flags, is a VIOLATION.
     nonfinite_tok = set()
     for p, a in zip(progs, harness("lex", [{"src": p} for p in progs])):
         ck.count("lex-finite", p, nontrivial=False)
@@ -314,13 +302,16 @@ def run():
                    and "Float" in t["kind"]["Literal"] and t["kind"]["Literal"]["Float"] is None]
             if bad:
                 nonfinite_tok.add(p)
-            if bool(bad) != pred:
-                ck.violation("the F14 input predicate and the lexer disagree on `a literal overflows f64`",
+            if bad or pred:
+                ck.violation("Hlex_finite fails: the lexer accepts a source with a number literal that overflows f64 (F14 recurs)" if bad else
+                             "the overflow predicate and the lexer disagree on `a literal overflows f64`",
                              {"src": p, "kind": "lex-finite", "got": {"predicate": pred, "non_finite_tokens": len(bad)}})
             else:
-                ck.stat("lex-finite", "hyp:lex_finite VIOLATED by the lexer (F14 source)" if bad else "hyp:lex_finite")
+                ck.stat("lex-finite", "hyp:lex_finite")
         else:
             ck.stat("lex-finite", "lexer rejects the source" + (" (overflowing literal)" if pred else ""))
+            if pred and not any("not a finite 64-bit float" in e.get("reason", "") for e in a.get("err", [])):
+                ck.stat("lex-finite", "overflowing literal rejected for another reason")
 
     # ------------------------------------------------------------------ 2. model vs real serde on the implementation's own JSON
     small = []
@@ -612,8 +603,10 @@ def run():
             ck.count("staged-vs-direct", key, nontrivial=False)
             ck.violation("harness failure on staged-vs-direct", case); continue
         d, st = a["direct"], a["staged"]
-        dc = err_core(d)
-        sc = err_core(st["r"]) if isinstance(st, dict) and "r" in st else err_core(st)
+        dc = err_core(d, rq_["src"])
+        sc = err_core(st["r"], rq_["src"]) if isinstance(st, dict) and "r" in st else err_core(st, rq_["src"])
+        if dc[0] == "err" and any(ord(c) > 127 for c in rq_["src"]):
+            ck.stat("staged-vs-direct", "err:non-ascii-source(spans compared in characters)")
         ck.count("staged-vs-direct", key, nontrivial=(dc[0] == "ok"))
         ck.stat("staged-vs-direct", "direct:" + dc[0])
         if dc == sc:
@@ -635,41 +628,50 @@ def run():
             ds, ss = {json.dumps(dc)}, {json.dumps(sc)}
             for a in rep[k * 12:(k + 1) * 12]:
                 if "direct" in a:
-                    ds.add(json.dumps(err_core(a["direct"])))
+                    ds.add(json.dumps(err_core(a["direct"], rq_["src"])))
                     st = a["staged"]
-                    ss.add(json.dumps(err_core(st["r"]) if isinstance(st, dict) and "r" in st else err_core(st)))
+                    ss.add(json.dumps(err_core(st["r"], rq_["src"]) if isinstance(st, dict) and "r" in st else err_core(st, rq_["src"])))
             if (len(ds) > 1 or len(ss) > 1) and (ds & ss):
                 ck.stat("staged-vs-direct", "output-varies-between-calls(C11)")
                 continue
-            ck.disagreement("staged chain differs from compile() (%s vs %s)" % (dc[0], sc[0]), case, classify_staged)
+            ck.disagreement("staged chain differs from compile() (%s vs %s)" % (dc[0], sc[0]), case)
     ck.coverage["staged_matrix"] = {"programs": len(sp), "dialects": len(names), "formats": 2, "signature": 2, "plus_no_target_option": True}
 
-    # F14 in the model: the witness of c15_roundtrip_refuted_nonfinite replayed on the implementation
+    # F14 (fixed by d8fda67) regression guards: every directed source with an overflowing literal is rejected by the lexer in BOTH
+    # paths with the same error (they are part of the staged matrix above); the witness of c15_roundtrip_refuted_nonfinite
+    # (`let m = 1e400`) can no longer be produced from a source
     a = harness1("c15_both", {"src": "let m = 1e400\nfrom t", "target": "sql.sqlite"})
-    if isinstance(a.get("staged"), dict) and a["staged"].get("stage") == "to_pl" and "ok" in a.get("direct", {}):
-        ck.disagreement("F14 witness", {"src": "let m = 1e400\nfrom t", "kind": "nonfinite-model", "got": a["staged"]["r"]}, classify_f14)
-        ck.coverage["f14_witness_replayed"] = True
-    else:
-        ck.coverage["f14_witness_replayed"] = False
+    st = a.get("staged", {})
+    okg = ("err" in a.get("direct", {}) and isinstance(st, dict) and st.get("stage") == "prql_to_pl"
+           and err_core(a["direct"], "let m = 1e400\nfrom t") == err_core(st.get("r", {}), "let m = 1e400\nfrom t")
+           and "not a finite 64-bit float" in a["direct"]["err"][0]["reason"])
+    ck.coverage["f14_lexer_rejects_in_both_paths"] = bool(okg)
+    if not okg:
+        ck.violation("an overflowing number literal is not rejected by the lexer identically in both paths (F14 recurs)",
+                     {"src": "let m = 1e400\nfrom t", "target": "sql.sqlite", "got": a})
 
     # F14b (fixed by 8eee066) directed: an empty array at an Ident position is rejected, not a panic; F9 directed
     a = harness1("c15_reser", {"kind": "pl", "json": '{"name":"P","stmts":[{"ImportDef":{"alias":null,"name":[]}}]}'})
     if "de_err" not in a:
         ck.violation("an empty array at an Ident position is not cleanly rejected by to_pl (F14b recurs)",
                      {"kind": "pl", "edit": "directed", "json": '{"name":"P","stmts":[{"ImportDef":{"alias":null,"name":[]}}]}', "got": a})
+    # F9 (fixed by d3106b1) regression guard: an error behind non-ASCII text is an error in both paths, same span in characters
     src9 = 'from [{a = "é 漢 \\u{1F600} é 漢"}] | join u (==id)'
     a = harness1("c15_both", {"src": src9, "target": "sql.sqlite"})
-    if "panic" in a.get("direct", {}):
-        st = a["staged"]
-        ck.disagreement("staged chain differs from compile() (panic vs err)",
-                        {"src": src9, "target": "sql.sqlite", "got": {"direct": err_core(a["direct"]), "staged": err_core(st["r"]) if isinstance(st, dict) and "r" in st else err_core(st),
-                                                                     "stage": st.get("stage") if isinstance(st, dict) else None}}, classify_staged)
+    st = a.get("staged", {})
+    dc9 = err_core(a.get("direct", {}), src9)
+    sc9 = err_core(st["r"], src9) if isinstance(st, dict) and "r" in st else err_core(st, src9)
+    ck.coverage["f9_error_behind_non_ascii_same_in_both_paths"] = (dc9 == sc9 and dc9[0] == "err")
+    if dc9 != sc9 or dc9[0] != "err":
+        ck.violation("an error behind non-ASCII text differs between compile() and the staged chain (F9 recurs)",
+                     {"src": src9, "target": "sql.sqlite", "got": {"direct": dc9, "staged": sc9}})
 
     ck.proof_broken_violation(found_input=any(not ni for _, _, ni in ck.violations))
     ck.assumptions += [
         "error composition differs between the paths by design (display/location are only set by compile / prql_to_pl): compared on kind, code, reason, hints, span",
         "a panic in both paths with the same message counts as agreement (C12 owns panics)",
-        "json_ok (no non-finite float) is a hypothesis of c15_staged_eq_direct_partial, and `the stage value is read from a document` the one of c15_staged_eq_direct_docs; the programs violating them are exactly the F14 class (stream model-de-ser: both-reject)",
+        "json_ok (no non-finite float) is a hypothesis of c15_staged_eq_direct_partial, and `the stage value is read from a document` the one of c15_staged_eq_direct_docs; since d8fda67 no source violates them (the lexer rejects overflowing literals: stream lex-finite requires zero non-finite tokens; model-de-ser requires zero unreadable documents)",
+        "since d3106b1 a composed error carries character offsets and an uncomposed one (pl_to_rq / rq_to_sql called directly) the byte offsets of the tokens: spans are compared in characters of the source (span_chars)",
         "each path is a function of its input (C11): a staged/direct mismatch is re-run 12 times and not reported when the outputs of one path already vary between calls and the two sets of outputs overlap (hash-iteration-order findings of C11)",
     ]
     ck.violations = prioritise(ck.violations)
